@@ -243,6 +243,25 @@ def opPHSolve (j : Json) : Json :=
                   ("T", Json.arr (c.pins.map fun x => Json.arr (c.pins.map fun y => gratToJson (c.sem x y)).toArray).toArray)])
   | _, _ => errJson "parse"
 
+def parseKwLists (j : Json) : Option (List (String × List GRat)) :=
+  match j with
+  | .arr xs => xs.toList.mapM fun (x : Json) => match x with
+      | Json.arr #[Json.str k, Json.arr vs] => (vs.toList.mapM parseGRat).map fun l => (k, l)
+      | _ => none
+  | _ => none
+
+/-- op `phsweep`: `top.solve(**kw)` with array-valued parameters (`PNet.psweep`) -/
+def opPHSweep (j : Json) : Json :=
+  match (j.getObjVal? "tree").toOption >>= parsePTree, (j.getObjVal? "kw").toOption >>= parseKwLists with
+  | some t, some kw =>
+    match PNet.psweep Solve.pySched kw t with
+    | none => errJson "lengths"
+    | some rs => Json.mkObj [("points", Json.arr (rs.map fun r => match r with
+        | .error e => errJson (errName e)
+        | .ok c => Json.mkObj [("pins", toJson c.pins),
+            ("T", Json.arr (c.pins.map fun x => Json.arr (c.pins.map fun y => gratToJson (c.sem x y)).toArray).toArray)]).toArray)]
+  | _, _ => errJson "parse"
+
 /-- op `monsolve`: the monitor path of `Solver.solve` (`Monitor.solveMonitored` with the pin-count heuristic) -/
 def opMonSolve (j : Json) : Json :=
   match fromJson? (α := CaseJ) j with
@@ -281,6 +300,7 @@ def dispatch (j : Json) : Json :=
   | some "monsolve" => opMonSolve j
   | some "hsolve" => opHSolve j
   | some "phsolve" => opPHSolve j
+  | some "phsweep" => opPHSweep j
   | some "stack" => opStack j
   | some "rename" => opRename j
   | some "compose" => opCompose j
